@@ -18,7 +18,8 @@ type Expect struct {
 	HasID   bool   // a well-formed id (string or integer) the answer must echo
 	ID      V
 	ErrText string
-	Req     bool // the input is a JSON value that looks like a request (an answer's id may refer to it)
+	Cause   string // why an input is not served (part of the fingerprint of "unserved" findings)
+	Req     bool   // the input is a JSON value that looks like a request (an answer's id may refer to it)
 }
 
 type defect struct{ id, detail string }
@@ -73,7 +74,8 @@ func idEqual(want V, got any) (bool, bool) { // (equal, equalAfterRounding)
 		if w.Cmp(gr) == 0 {
 			return true, false
 		}
-		if w.IsInt() && gr.IsInt() && f64Round(w.Num()).Cmp(gr.Num()) == 0 {
+		// the same float64 (Go prints the shortest digits that identify it, not its exact value)
+		if w.IsInt() && gr.IsInt() && f64Round(w.Num()).Cmp(f64Round(gr.Num())) == 0 {
 			return false, true
 		}
 	}
